@@ -512,20 +512,298 @@ pub fn hex(b: &[u8]) -> String {
     b.iter().map(|x| format!("{:02x}", x)).collect()
 }
 
+const TEXT: &[char] = &['a', 'b', 'Z', '0', '_', ',', '.', '(', ')', ' ', 'é', 'ß', '漢', '\u{0301}'];
+
+fn tok_char(c: char) -> String {
+    let mut b = [0u8; 4];
+    hex(c.encode_utf8(&mut b).as_bytes())
+}
+
+fn rand_text(rng: &mut Rng, max: usize, multiline: bool) -> String {
+    let k = rng.below(max + 1);
+    (0..k)
+        .map(|_| {
+            if multiline && rng.chance(1, 8) {
+                '\n'
+            } else {
+                *rng.pick(TEXT)
+            }
+        })
+        .collect()
+}
+
+/// one emacs-mode key press (possibly a short multi-key idiom), as tokens
+fn emacs_key(rng: &mut Rng, out: &mut Vec<String>, helper: bool) {
+    match rng.below(100) {
+        0..=34 => out.push(tok_char(*rng.pick(TEXT))),
+        35..=49 => {
+            // control keys
+            let c = *rng.pick(b"\x01\x02\x05\x06\x04\x08\x0b\x0e\x10\x14\x15\x17\x19\x1f\x7f\x0c");
+            out.push(format!("{:02x}", c));
+        }
+        50..=61 => {
+            // meta keys, ESC-prefixed in one write
+            let c = *rng.pick(b"bfdcluty<>BFDT\x7f");
+            out.push(format!("1b{:02x}", c));
+        }
+        62..=69 => {
+            // cursor keys in several encodings
+            out.push(
+                rng.pick(&[
+                    "1b5b41", "1b5b42", "1b5b43", "1b5b44", "1b4f41", "1b4f42", "1b4f43", "1b4f44", "1b5b48", "1b5b46",
+                    "1b5b337e", "1b5b313b3543", "1b5b313b3544", "1b5b313b3343", "1b5b313b3344", "1b5b317e", "1b5b347e",
+                    "1b4f48", "1b4f46", "1b5b5a",
+                ])
+                .to_string(),
+            );
+        }
+        70..=76 => {
+            // numeric argument then a command
+            if rng.chance(1, 3) {
+                out.push("1b2d".to_string());
+            }
+            let k = rng.below(3);
+            for i in 0..k {
+                let d = b'0' + rng.below(10) as u8;
+                if i == 0 || rng.chance(1, 2) {
+                    out.push(format!("1b{:02x}", d));
+                } else {
+                    out.push(format!("{:02x}", d));
+                }
+            }
+            if k == 0 && out.last().map_or(true, |l| l != "1b2d") {
+                out.push(format!("1b{:02x}", b'1' + rng.below(4) as u8));
+            }
+            let c = *rng.pick(b"\x02\x06\x04\x08\x0b\x15\x17\x19\x1fa ");
+            out.push(format!("{:02x}", c));
+        }
+        77..=80 => {
+            // C-x C-u, C-x Backspace, C-x C-g
+            out.push("18".to_string());
+            out.push(rng.pick(&["15", "7f", "07", "61"]).to_string());
+        }
+        81..=85 => {
+            // incremental search
+            out.push(rng.pick(&["12", "13"]).to_string());
+            let k = rng.below(3);
+            for _ in 0..k {
+                out.push(tok_char(*rng.pick(&['a', 'b', 'é', ' ', '('])));
+            }
+            match rng.below(6) {
+                0 => out.push("12".to_string()),
+                1 => out.push("13".to_string()),
+                2 => out.push("07".to_string()),
+                3 => out.push("7f".to_string()),
+                4 => out.push("1b".to_string()),
+                _ => {}
+            }
+        }
+        86..=89 => {
+            // quoted insert
+            out.push("16".to_string());
+            out.push(rng.pick(&["0a", "09", "61", "1b", "c3a9"]).to_string());
+        }
+        90..=94 => {
+            if helper {
+                out.push("09".to_string());
+                let k = rng.below(4);
+                for _ in 0..k {
+                    out.push(rng.pick(&["09", "1b5b5a", "09"]).to_string());
+                }
+                if rng.chance(1, 3) {
+                    out.push(rng.pick(&["1b", "07"]).to_string());
+                }
+            } else {
+                out.push("09".to_string());
+            }
+        }
+        95..=96 => {
+            // character search C-] c / M-C-] c
+            out.push(rng.pick(&["1d", "1b1d"]).to_string());
+            out.push(tok_char(*rng.pick(&['a', 'b', ' '])));
+        }
+        97 => out.push("0a".to_string()),
+        _ => out.push("0d".to_string()),
+    }
+}
+
+fn vi_motion(rng: &mut Rng, out: &mut Vec<String>) {
+    if rng.chance(1, 5) {
+        out.push(format!("{:02x}", b'1' + rng.below(3) as u8));
+    }
+    let m = *rng.pick(b"hlwbeWBE0$^jk;, ");
+    if rng.chance(1, 6) {
+        out.push(tok_char(*rng.pick(&['f', 't', 'F', 'T'])));
+        out.push(tok_char(*rng.pick(&['a', 'b', ' ', 'é'])));
+    } else {
+        out.push(format!("{:02x}", m));
+    }
+}
+
+fn vi_key(rng: &mut Rng, out: &mut Vec<String>, insert_mode: &mut bool, helper: bool) {
+    if *insert_mode {
+        match rng.below(100) {
+            0..=54 => out.push(tok_char(*rng.pick(TEXT))),
+            55..=74 => {
+                out.push("1b".to_string());
+                // with keyseq_timeout = None a lone ESC waits for the next byte: pair it
+                vi_cmd(rng, out, insert_mode, true);
+            }
+            75..=82 => out.push(rng.pick(&["7f", "08", "17", "15", "14", "19"]).to_string()),
+            83..=88 => out.push(
+                rng.pick(&["1b5b41", "1b5b42", "1b5b43", "1b5b44", "1b5b48", "1b5b46", "1b5b337e"]).to_string(),
+            ),
+            89..=91 => out.push(if helper { "09" } else { "12" }.to_string()),
+            92..=93 => {
+                out.push("16".to_string());
+                out.push(rng.pick(&["0a", "61"]).to_string());
+            }
+            _ => out.push("0d".to_string()),
+        }
+    } else {
+        vi_cmd(rng, out, insert_mode, false);
+    }
+}
+
+/// one vi command-mode command; `fast` = the key directly follows ESC (Alt-key = fast command mode)
+fn vi_cmd(rng: &mut Rng, out: &mut Vec<String>, insert_mode: &mut bool, fast: bool) {
+    let mut toks: Vec<String> = vec![];
+    if !fast && rng.chance(1, 6) {
+        toks.push(format!("{:02x}", b'1' + rng.below(4) as u8));
+        if rng.chance(1, 4) {
+            toks.push(format!("{:02x}", b'0' + rng.below(10) as u8));
+        }
+    }
+    *insert_mode = false;
+    match rng.below(100) {
+        0..=29 => vi_motion(rng, &mut toks),
+        30..=44 => {
+            let op = *rng.pick(b"dcy<>");
+            toks.push(format!("{:02x}", op));
+            if rng.chance(1, 5) {
+                toks.push(format!("{:02x}", op));
+            } else {
+                vi_motion(rng, &mut toks);
+            }
+            if op == b'c' {
+                *insert_mode = true;
+            }
+        }
+        45..=56 => toks.push(format!("{:02x}", *rng.pick(b"xXDpPu.~"))),
+        57..=66 => {
+            let c = *rng.pick(b"aAiIsSCR");
+            toks.push(format!("{:02x}", c));
+            *insert_mode = true;
+        }
+        67..=70 => {
+            toks.push("72".to_string());
+            toks.push(tok_char(*rng.pick(&['a', 'Z', 'é', ' '])));
+        }
+        71..=76 => toks.push(rng.pick(&["10", "0e", "0b", "08", "7f", "1b5b41", "1b5b42"]).to_string()),
+        77..=80 => {
+            toks.push(rng.pick(&["12", "13"]).to_string());
+            *insert_mode = true;
+            toks.push(tok_char(*rng.pick(&['a', 'b'])));
+            toks.push(rng.pick(&["07", "12", "0d", "61"]).to_string());
+        }
+        81..=84 => toks.push("1b".to_string()),
+        85..=90 => toks.push(rng.pick(&["19", "14", "15", "17", "1f"]).to_string()),
+        _ => toks.push("0d".to_string()),
+    }
+    if fast {
+        // glue the first token to the preceding ESC so that it is read as Alt-<key>
+        let first = toks.remove(0);
+        let last = out.pop().unwrap();
+        out.push(format!("{}{}", last, first));
+    }
+    out.extend(toks);
+}
+
 pub fn gen(ctx: &GenCtx, sink: &mut dyn FnMut(String)) {
     let mut rng = Rng::new(ctx.seed ^ 0xED);
-    let n = if ctx.thorough { 20000 } else { 1500 };
+    let n = if ctx.thorough { 60_000 } else { 3_000 };
     for _ in 0..n {
-        let vi = rng.chance(1, 3);
-        let mut req = format!("ed {} 80 - ~ - - - -", if vi { "v" } else { "e" });
-        let k = 1 + rng.below(10);
-        for _ in 0..k {
-            let c = *rng.pick(&['a', 'b', ' ', 'é', '漢']);
-            let mut b = [0u8; 4];
-            req.push(' ');
-            req.push_str(&hex(c.encode_utf8(&mut b).as_bytes()));
+        let vi = rng.chance(2, 5);
+        let mut flags = String::new();
+        if rng.chance(1, 8) {
+            flags.push('t');
         }
-        req.push_str(" 0d");
+        if rng.chance(1, 10) {
+            flags.push('p');
+        }
+        let mut helper = String::from("-");
+        if rng.chance(1, 3) {
+            let mut parts: Vec<String> = vec![];
+            if rng.chance(2, 3) {
+                let k = rng.below(4);
+                let cands: Vec<String> = (0..k)
+                    .map(|_| rng.pick(&["ab", "abc", "abé", "b", "", "a b", "aZ", "漢a"]).to_string())
+                    .collect();
+                parts.push(format!("C={}", enc_texts(&cands)));
+                if rng.chance(1, 3) {
+                    flags.push('l');
+                }
+            }
+            match rng.below(4) {
+                0 => parts.push("Vb".to_string()),
+                1 => parts.push(format!(
+                    "V={}@{};{}@{}",
+                    'a' as u32,
+                    rng.pick(&['i', 'n', 'm', 'v']),
+                    '(' as u32,
+                    rng.pick(&['i', 'm', 'e'])
+                )),
+                _ => {}
+            }
+            if rng.chance(1, 3) {
+                parts.push(format!("H={}@{};{}@{}", 'a' as u32, enc_text("bc"), ' ' as u32, enc_text("漢 x")));
+            }
+            if !parts.is_empty() {
+                helper = parts.join("|");
+            }
+        }
+        let nh = rng.below(4);
+        let hist: Vec<String> = (0..nh)
+            .map(|_| {
+                let mut t = rand_text(&mut rng, 5, true);
+                if t.is_empty() {
+                    t.push('a');
+                }
+                t
+            })
+            .collect();
+        let (left, right) = if rng.chance(1, 4) {
+            (rand_text(&mut rng, 4, true), rand_text(&mut rng, 4, true))
+        } else {
+            (String::new(), String::new())
+        };
+        let mut req = format!(
+            "ed {} {} {} {} {} {} {} -",
+            if vi { "v" } else { "e" },
+            rng.pick(&[80u16, 80, 20, 10]),
+            if flags.is_empty() { "-" } else { &flags },
+            enc_texts(&hist),
+            enc_text(&left),
+            enc_text(&right),
+            helper
+        );
+        let k = 1 + rng.below(if ctx.thorough { 30 } else { 14 });
+        let mut toks: Vec<String> = vec![];
+        let mut insert_mode = true;
+        for _ in 0..k {
+            if vi {
+                vi_key(&mut rng, &mut toks, &mut insert_mode, helper != "-");
+            } else {
+                emacs_key(&mut rng, &mut toks, helper != "-");
+            }
+        }
+        if rng.chance(3, 4) {
+            toks.push("0d".to_string());
+        }
+        for t in toks {
+            req.push(' ');
+            req.push_str(&t);
+        }
         sink(req);
     }
 }
